@@ -171,6 +171,14 @@ func runC09(c *core.Ctx) {
 		for k, v := range final {
 			writeFile(filepath.Join(finalDir, k), v)
 		}
+		// sometimes the directory also holds a symlink to a directory that sorts before the products
+		// (without follow-symlink-dirs it contributes nothing, and it must not hide what sorts after it)
+		withDirLink := r.Intn(4) == 0
+		if withDirLink {
+			os.MkdirAll(filepath.Join(root, "elsewhere"), 0755)
+			writeFile(filepath.Join(root, "elsewhere", "inner"), "x")
+			os.Symlink(filepath.Join(root, "elsewhere"), filepath.Join(finalDir, "aaa"))
+		}
 		// step link: hash algorithms vary (inspections always record sha256)
 		algs := [][]string{{"sha256"}, {"sha256"}, {"sha256", "sha512"}, {"sha512"}}[r.Intn(4)]
 		stepProducts := map[string]intoto.HashObj{}
@@ -209,7 +217,12 @@ func runC09(c *core.Ctx) {
 			case 1:
 				s.Actions = []string{"modify:pkg.tar:changed-by-inspection"}
 			case 2:
-				s.Actions = []string{"delete:doc.txt"}
+				if r.Intn(2) == 0 {
+					s.Actions = []string{"delete:doc.txt"}
+				} else {
+					// other content of the same size, modification time restored
+					s.Actions = []string{"samesize:pkg.tar"}
+				}
 			case 3:
 				s.Exit = []int{1, 2, 127, 255}[r.Intn(4)]
 				s.Actions = []string{fmt.Sprintf("exit:%d", s.Exit)}
@@ -248,7 +261,7 @@ func runC09(c *core.Ctx) {
 		c.Eval(1)
 		log := readSnapLog(logFile)
 		specJSON, _ := json.Marshal(specs)
-		detail := map[string]any{"entry": entry, "dsse": dsse, "line_normalization": lineNorm, "directory_delta": delta, "step_link_algorithms": algs, "step_defect": stepDefect, "inspections": json.RawMessage(specJSON), "error": errStr(obs.Err), "executed": InspectionsExecuted(obs.Events)}
+		detail := map[string]any{"entry": entry, "dsse": dsse, "line_normalization": lineNorm, "directory_delta": delta, "symlink_to_directory_in_final_dir": withDirLink, "step_link_algorithms": algs, "step_defect": stepDefect, "inspections": json.RawMessage(specJSON), "error": errStr(obs.Err), "executed": InspectionsExecuted(obs.Events)}
 		reportTrace(c, id, obs, detail)
 
 		// ---- expected outcome --------------------------------------------------
@@ -385,7 +398,7 @@ func init() {
 	core.Register(&core.Property{
 		ID:    "C09",
 		Level: "exploration",
-		Rule: "seeded cases: final-product directory = the last step's products with files {untouched, added, removed, modified, modified in line endings only}; 0-3 inspections whose command is `vhelper inspect` with an action from {no-op, create / modify / delete a file, exit 1/2/127/255, kill 9/15} or a missing / non-executable program; inspection rule lists drawn from a 17-21-rule vocabulary (MATCH against the last step's products/materials with and without IN <run dir>, against an earlier inspection, ALLOW/DISALLOW/REQUIRE/CREATE/MODIFY/DELETE with run-dir-prefixed names) + terminal DISALLOW *; step link recorded with sha256 / sha256+sha512 / sha512 only; step-phase defect in 1/7 of the cases; entry points plain, run dir relative, run dir absolute; both wrappers; line normalisation on in 1/3. Oracle: reference rule interpreter over the directory snapshots the command itself logged (before/after, raw or normalised digests) and the step links; execution order / exactly once / not after a failing command / not before the step checks from the log and the inspection_exec events. " +
+		Rule: "seeded cases: final-product directory = the last step's products with files {untouched, added, removed, modified, modified in line endings only}, in a quarter of the cases plus a symlink to a directory that sorts first; 0-3 inspections whose command is `vhelper inspect` with an action from {no-op, create / modify / delete a file, replace a file by other content of the same size with its modification time restored, exit 1/2/127/255, kill 9/15} or a missing / non-executable program; inspection rule lists drawn from a 17-21-rule vocabulary (MATCH against the last step's products/materials with and without IN <run dir>, against an earlier inspection, ALLOW/DISALLOW/REQUIRE/CREATE/MODIFY/DELETE with run-dir-prefixed names) + terminal DISALLOW *; step link recorded with sha256 / sha256+sha512 / sha512 only; step-phase defect in 1/7 of the cases; entry points plain, run dir relative, run dir absolute; both wrappers; line normalisation on in 1/3. Oracle: reference rule interpreter over the directory snapshots the command itself logged (before/after, raw or normalised digests) and the step links; execution order / exactly once / not after a failing command / not before the step checks from the log and the inspection_exec events. " +
 			"non-trivial = at least one inspection; distinct = hash of the whole case",
 		Assumptions: []string{"an empty run list is not generated (the statement does not say what should happen)", "the snapshot taken inside the command equals what the library records directly before/after it"},
 		Workers:     func(string) int { return 16 },
